@@ -548,6 +548,7 @@ func checkWellFormed(c *core.Case) ([]core.Violation, bool) {
 		{name: "go-patch-version", gover: "1.21.0", noSpec: true}, {name: "go-rc-version", gover: "1.21rc2", noSpec: true}, {name: "go-beta-version", gover: "1.23beta1", noSpec: true},
 		{name: "line-starting-with-modules", pre: "require modules.example.com/x v1.0.0\n", noSpec: true},
 		{name: "block-line-starting-with-modules", pre: "require (\n\tmodules.example.com/x v1.0.0\n\tmodule.example.com/y v1.0.0\n)\n", noSpec: true},
+		{name: "dir-with-backslash-and-space", opener: "\\\\my dir", noSpec: true}, {name: "dir-with-tilde-and-bar", opener: "/~w|x", noSpec: true},
 		{name: "comment-trailing-space", tws: true, noSpec: true}, {name: "comment-trailing-space-crlf", tws: true, crlf: true, noSpec: true}}
 	for _, v := range variants {
 		text := renderVariant(in.Layout, v)
